@@ -33,6 +33,7 @@ def yOp : Y → Op
   | .list [.str [109], base, index, scale, offset, pre, post, key] =>   -- "m"
     .mem { base := yReg base, index := yReg index, scale := yInt scale,
            offset := (match offset with | .num q => some (q.num / q.den) | _ => none),
+           sym := (match offset with | .list [.str [115, 121, 109], t] => some (yTxt t) | _ => none),   -- ["sym", key]
            pre := yBool pre, post := yBool post, eqKey := yTxt key }
   | _ => .other
 
